@@ -67,6 +67,7 @@ def run(idx: ProgramIndex, rep: Report, tier: str):
     twin_obligations(idx, rep, "C06-6", 30)
     derivative_diag_layout(idx, rep)
     lazy_batch_ops(idx, rep)
+    block_shapes(idx, rep)
 
 
 # ---- C06-1 ---------------------------------------------------------------------------------------------------------
@@ -645,3 +646,62 @@ def _guards_around(fn: ast.AST, target: ast.AST) -> List[ast.AST]:
         return False
     rec(fn.body, [])
     return out
+
+
+# ---- C06-10 --------------------------------------------------------------------------------------------------------
+def block_shapes(idx: ProgramIndex, rep: Report):
+    """The derivative kernels assemble K(x1, x2) from blocks written into slices of one pre-allocated matrix.  'diag, transpose and lazy
+    evaluation agree' presupposes that the rectangular evaluation exists for every n1, n2: each block must have the shape of its slot,
+    and every elementwise operation on the way must broadcast, as *identities* in n1, n2 and d - code that was only ever exercised with
+    n1 == n2 passes its tests and raises (or, with d = 1 coincidences, silently mis-pairs entries) for a cross-covariance.  Decided by
+    abstract interpretation of forward's `not diag` branch in the symbolic-shape domain (domains/symshape.py)."""
+    from ..domains.symshape import ShapeEval
+    rep.rule("C06-10", "derivative kernels: every block has the shape of the slot it is stored into and every elementwise operation broadcasts, identically in n1, n2, d (symbolic-shape domain)")
+    K = idx.cls(idx.package + ".kernels.kernel", "Kernel")
+    n = 0
+    for cls in sorted(idx.package_classes(), key=lambda c: c.qualname):
+        if not cls.is_subclass_of(K) or "Grad" not in cls.name:
+            continue
+        fi = cls.methods.get("forward")
+        if fi is None or len(fi.params) < 3:
+            continue
+        se = ShapeEval(fi.params[1], fi.params[2])
+        # module-level numeric constants (sqrt5 = math.sqrt(5), five_thirds = 5.0 / 3.0) are python scalars
+        for a_ in fi.module.tree.body:
+            if isinstance(a_, ast.Assign) and len(a_.targets) == 1 and isinstance(a_.targets[0], ast.Name):
+                v_ = a_.value
+                if isinstance(v_, ast.Constant) and isinstance(v_.value, (int, float)) or (isinstance(v_, ast.Call) and (chain(v_.func) or "").startswith("math.")) or \
+                   (isinstance(v_, ast.BinOp) and all(isinstance(x, (ast.Constant, ast.BinOp, ast.operator, ast.UnaryOp, ast.unaryop, ast.Load)) or (isinstance(x, ast.Call) and (chain(x.func) or "").startswith("math.")) or isinstance(x, (ast.Attribute, ast.Name)) and (chain(x) or "").startswith("math") for x in ast.walk(v_))):
+                    se.env[a_.targets[0].id] = "scalar"
+
+        def run_block(stmts):
+            for st in stmts:
+                if isinstance(st, ast.Assign):
+                    se.assign(st)
+                elif isinstance(st, ast.If):
+                    t = src(st.test)
+                    sizes_equal = any(isinstance(c, ast.Compare) and any(isinstance(o, ast.Eq) for o in c.ops) and isinstance(c.left, ast.Name) and isinstance(se.env.get(c.left.id), object) and c.left.id in se.env and
+                                      all(isinstance(x, ast.Name) and x.id in se.env for x in c.comparators) for c in ast.walk(st.test))
+                    is_diag = isinstance(st.test, ast.Name) and st.test.id == "diag"
+                    not_diag = isinstance(st.test, ast.UnaryOp) and isinstance(st.test.op, ast.Not) and isinstance(st.test.operand, ast.Name) and st.test.operand.id == "diag"
+                    if not_diag:
+                        run_block(st.body)
+                    elif is_diag:
+                        run_block(st.orelse)
+                    elif sizes_equal:
+                        continue  # guarded by an explicit test that the sizes coincide: nothing is claimed for all sizes there
+                    else:
+                        run_block(st.body)
+                        run_block(st.orelse)
+                elif isinstance(st, ast.Expr):
+                    se.ev(st.value)
+        run_block(body_without_docstring(fi.node))
+        n += 1
+        probs = sorted(set(se.problems))
+        rep.add("C06-10", "%s:%s.forward[block shapes]" % (cls.module.name, cls.qualname), fi.where, not probs,
+                "%d shape obligations (block stores, broadcasts, reshapes, repeats) hold identically in n1, n2, d" % se.checked if not probs else
+                "; ".join("line %d: %s" % (l, t) for l, t in probs[:4]) + (" (+%d more)" % (len(probs) - 4) if len(probs) > 4 else "") +
+                ": the rectangular evaluation K(x1, x2) with n1 != n2 raises (the code was verified for n1 = n2 only)", {"checked": se.checked, "problems": len(probs)})
+        if se.checked < 5:
+            rep.observe("C06-10", "%s:%s.forward" % (cls.module.name, cls.qualname), fi.where, "only %d shape obligations could be formed: the code is outside the shape domain" % se.checked)
+    rep.floor("C06-10", "derivative kernels", n, 3)
